@@ -320,8 +320,15 @@ def bounded_adaptive_runs(tier, seed):
     rng = np.random.RandomState(seed + 11)
     rec = []
 
+    class _RunAway(BaseException):
+        pass
+
+    MAX_STEPS = 20000  # stated bound: an interval 3-5 initial steps long, tolerances >= 1e-7, methods of order >= 3
+
     class Rec(Hooks):
         def post_step(self, step, level_number):
+            if len(rec) > MAX_STEPS:
+                raise _RunAway()
             L = step.levels[0]
             est = L.status.get('error_embedded_estimate')
             if est is None:
@@ -362,6 +369,9 @@ def bounded_adaptive_runs(tier, seed):
                         c.run(u0=u0, t0=0.0, Tend=Tend)
                     except ConvergenceError:
                         seen['convergence_errors'] += 1
+                        continue
+                    except _RunAway:
+                        fails['run_terminates_or_raises_ConvergenceError'].append(dict(config=cfg, error=f'more than {MAX_STEPS} steps attempted, last t={rec[-1]["t"]!r} dt={rec[-1]["dt"]!r}'))
                         continue
                     except Exception as e:  # anything else is not a documented way to stop
                         fails['run_terminates_or_raises_ConvergenceError'].append(dict(config=cfg, error=repr(e)[:200]))
